@@ -12,17 +12,22 @@ ToSet(s) == {s[i] : i \in 1..Len(s)}
 ----------------------------------------------------------------------------------------------------
 (* F1 members: tags x optional x compact x duplicate names over <= 3 members of a container          *)
 Containers == {"struct", "cstruct", "enf", "cenf", "params", "rets"}
-TagVals == {"none", "zero", "one", "i32max", "i32max1", "m1"}
+\* "huge": a literal beyond 128 bits - out of every range; the literal itself is refused (E030 belongs to the range rules)
+TagVals == {"none", "zero", "one", "i32max", "i32max1", "m1", "huge"}
+\* (an empty member list is written for structs, compact structs, parameter lists and return tuples)
 MemberItems(maxLen) == [c : Containers, ms : SeqsOver([tag : TagVals, opt : BOOLEAN, dup : BOOLEAN], 1, maxLen)]
+                       \cup [c : {"struct", "cstruct", "params", "rets"}, ms : {<<>>}]
 Tagged(m) == m.tag # "none"
 VMembers(it) ==
   LET ms == it.ms  n == Len(ms) IN
   (IF \E i \in 1..n : ms[i].tag \in {"i32max1", "m1"} THEN {"E021"} ELSE {})                 \* tags within 0..2^31-1
+  \cup (IF \E i \in 1..n : ms[i].tag = "huge" THEN {"E021", "E030"} ELSE {})
   \cup (IF \E i \in 1..n : Tagged(ms[i]) /\ ~ms[i].opt THEN {"E016"} ELSE {})                \* tags only on optional members
   \cup (IF \E i, j \in 1..n : i < j /\ Tagged(ms[i]) /\ ms[i].tag = ms[j].tag THEN {"E012"} ELSE {})   \* tags unique
   \cup (IF it.c \in {"cstruct", "cenf"} /\ \E i \in 1..n : Tagged(ms[i]) THEN {"E015"} ELSE {})        \* compact types untagged
   \cup (IF \E i \in 2..n : ms[i].dup THEN {"E010"} ELSE {})                                  \* names unique within their scope
   \cup (IF it.c = "rets" /\ n < 2 THEN {"E014"} ELSE {})                                     \* return tuples of at least two
+  \cup (IF it.c = "cstruct" /\ n = 0 THEN {"E018"} ELSE {})                                  \* compact structs non-empty
 
 ----------------------------------------------------------------------------------------------------
 (* F2 enums                                                                                          *)
@@ -30,7 +35,7 @@ Integral == {"int8", "uint8", "int16", "uint16", "int32", "uint32", "varint32", 
 Signed == {"int8", "int16", "int32", "varint32", "int64", "varint62"}
 Underlyings == {"none"} \cup Integral \cup {"bool", "float32", "float64", "string", "optuint8", "aliasuint8"}
 EnumMods == {"checked", "unchecked", "compact", "compactunchecked"}
-EnVals == {"implicit", "min1", "min", "max", "max1", "same"}           \* "same": the value of the first enumerator, written again
+EnVals == {"implicit", "min1", "min", "max", "max1", "same", "huge"}   \* "same": the value of the first enumerator, written again; "huge": beyond 128 bits
 EnumItems(maxLen) == [u : Underlyings, mod : EnumMods, vals : SeqsOver(EnVals, 0, maxLen), fields : BOOLEAN]
 HasRange(u) == u \in Integral \cup {"none", "optuint8", "aliasuint8"}
 IsSigned(u) == u \in Signed
@@ -47,6 +52,7 @@ ValuesOf(vals, i, acc, u) ==
                   [] vals[i] = "max"  -> [base |-> "max", off |-> 0]
                   [] vals[i] = "max1" -> [base |-> "max", off |-> 1]
                   [] vals[i] = "same" -> IF acc = <<>> THEN [base |-> "zero", off |-> 0] ELSE acc[1]
+                  [] vals[i] = "huge" -> [base |-> "max", off |-> 1000 + i]
        IN ValuesOf(vals, i + 1, Append(acc, Norm(v, u)), u)
 InRangeV(v, u) == CASE v.base = "min" -> v.off >= 0
                     [] v.base = "max" -> v.off <= 0
@@ -60,6 +66,7 @@ VEnums(it) ==
   \cup (IF it.mod \in {"checked", "compact"} /\ n = 0 THEN {"E008"} ELSE {})                 \* checked enums non-empty
   \cup (IF it.mod \in {"compact", "compactunchecked"} /\ (backed \/ it.mod = "compactunchecked") THEN {"E036"} ELSE {})
   \cup (IF HasRange(it.u) /\ \E i \in 1..n : ~InRangeV(vs[i], it.u) THEN {"E020"} ELSE {})   \* values within the range
+  \cup (IF \E i \in 1..Len(it.vals) : it.vals[i] = "huge" THEN {"E020", "E030"} ELSE {})       \* (also where no range exists: no value at all)
   \cup (IF \E i, j \in 1..n : i < j /\ vs[i] = vs[j] THEN {"E022"} ELSE {})                  \* values unique
 
 ----------------------------------------------------------------------------------------------------
